@@ -26,7 +26,7 @@ static void viol(const char *symptom, const char *fmt, ...) {
 }
 
 /* ------------------------------------------------ seq ------------------------------------------------ */
-static long long st_ops, st_w_ok, st_w_full, st_r, st_r_empty, st_wrap_w, st_wrap_r, st_clear, st_query, st_seg_checks, st_bufs;
+static long long st_ops, st_w_ok, st_w_full, st_r, st_r_empty, st_wrap_w, st_wrap_r, st_clear, st_query, st_seg_checks, st_bufs, st_reopens;
 static long long st_lenclass[10];
 
 typedef struct { unsigned char *d; size_t cap, head, used; } Ring;   /* reference FIFO */
@@ -102,7 +102,18 @@ static void seq_capacity(vh_rng *r, size_t S, long long ops, int smaller) {
 				if (want) st_r++; else st_r_empty++;
 			}
 			free(out); free(expb);
-		} else if (op < 97) { cur_op = "query"; st_query++; }
+		} else if (op < 94) { cur_op = "query"; st_query++; }
+		else if (op < 97) {
+			/* a handle that is not the owner goes away and another one is opened: every handle opened while the buffer exists is the same queue */
+			cur_op = "reopen";
+			if (!smaller && nh > 1) {
+				int k = 1 + (int)vh_below(r, (uint64_t)nh - 1); size_t arg = vh_chance(r, 50) ? S : vh_chance(r, 50) ? 0 : S + 1 + (size_t)vh_below(r, 3000);
+				p_shm_buffer_free(h[k]);
+				if (!vh_exists(path)) { viol("name-removed-by-non-owner", "the buffer's name disappeared when a handle that never took ownership was freed"); break; }
+				h[k] = p_shm_buffer_new(name, arg, NULL); st_reopens++;
+				if (!h[k]) { viol("open-failed", "re-opening the existing buffer with size argument %zu failed", arg); h[k] = h[nh - 1]; nh--; }
+			}
+		}
 		else { cur_op = "clear"; p_shm_buffer_clear(b); q.head = 0; q.used = 0; st_clear++; }
 		if (abort_hist) break;
 		{
@@ -265,7 +276,7 @@ int main(int argc, char **argv) {
 	}
 	p_libsys_shutdown();
 	printf("{\"ev\":\"stats\",\"mode\":\"%s\",\"ops\":%lld,\"buffers\":%lld,\"writes_ok\":%lld,\"writes_refused\":%lld,\"reads\":%lld,\"reads_empty\":%lld,\"wrap_writes\":%lld,\"wrap_reads\":%lld,"
-	       "\"clears\":%lld,\"segment_checks\":%lld,\"len_classes\":[", mode, st_ops, st_bufs, st_w_ok, st_w_full, st_r, st_r_empty, st_wrap_w, st_wrap_r, st_clear, st_seg_checks);
+	       "\"clears\":%lld,\"handles_closed_and_reopened\":%lld,\"segment_checks\":%lld,\"len_classes\":[", mode, st_ops, st_bufs, st_w_ok, st_w_full, st_r, st_r_empty, st_wrap_w, st_wrap_r, st_clear, st_reopens, st_seg_checks);
 	for (i = 0; i < 10; i++) printf("%s%lld", i ? "," : "", st_lenclass[i]);
 	printf("],\"viol\":%d,\"wall\":%.2f}\n", vh_nviol, vh_now() - t0);
 	return 0;
